@@ -802,6 +802,11 @@ func (s *StdioServer) ListRoots(ctx context.Context) (*ListRootsResult, error) {
 
 // SendRequest sends a JSON-RPC request to the client and waits for response.
 func (s *StdioServer) SendRequest(ctx context.Context, request *JSONRPCRequest) (*json.RawMessage, error) {
+	// The request goes out as JSON-RPC 2.0 also when the caller left the version empty.
+	if request.JSONRPC == "" {
+		request.JSONRPC = JSONRPCVersion
+	}
+
 	// Generate unique request ID if not provided.
 	if request.ID == nil {
 		request.ID = s.requestID.Add(1)
